@@ -448,6 +448,7 @@ fn apply(base: &[u8], sl: &[(usize, usize, String)], faults: &[Value], seed: u64
                 };
                 edits.push((s0, e0 - s0, v.into_bytes()));
             }
+            "bomb" => return Some(bomb(f["name"].as_str()?)),
             "keyword" => {
                 // the k-th occurrence of a structural keyword replaced by another token
                 let from = f["from"].as_str()?.as_bytes();
@@ -470,6 +471,61 @@ fn apply(base: &[u8], sl: &[(usize, usize, String)], faults: &[Value], seed: u64
         b.splice(at..at + len, rep);
     }
     Some(b)
+}
+
+/// Small files that ask for much: sizes, counts and nesting that a reader must bound by what the file really holds.
+fn bomb(name: &str) -> Vec<u8> {
+    let raw = |t: String| json!({ "raw": t });
+    let page = |contents: u32| raw(format!("<</Type/Page/Parent 2 0 R/MediaBox[0 0 100 100]/Contents {contents} 0 R/Resources<</Font<</F1 5 0 R>>>>>>"));
+    let font = json!({"n": 5, "g": 0, "value": raw("<</Type/Font/Subtype/Type1/BaseFont/Helvetica>>".into())});
+    let doc = |content: Vec<u8>, flate: bool, kids: String, count: i64| -> Vec<u8> {
+        let objects = vec![
+            json!({"n": 1, "g": 0, "value": raw("<</Type/Catalog/Pages 2 0 R>>".into())}),
+            json!({"n": 2, "g": 0, "value": raw(format!("<</Type/Pages/Kids[{kids}]/Count {count}>>"))}),
+            json!({"n": 3, "g": 0, "value": page(4)}),
+            json!({"n": 4, "g": 0, "dict": {"d": []}, "data": content, "filter": if flate { json!("Flate") } else { Value::Null }}),
+            font.clone(),
+        ];
+        crate::synth::build(&json!({"version": "1.7", "revisions": [{"objects": objects, "xref": "table", "trailer": [["Root", {"ref": [1, 0]}]]}]})).bytes
+    };
+    match name {
+        // 48 MB of content behind 48 KB of zlib
+        "flate_content" => doc(vec![b' '; 48 << 20], true, "3 0 R".into(), 1),
+        // a hundred thousand unbalanced q
+        "deep_q" => doc(b"q ".repeat(100_000), true, "3 0 R".into(), 1),
+        // one TJ array of a million elements
+        "huge_tj" => {
+            let mut c = b"BT /F1 9 Tf [".to_vec();
+            c.extend(b"(a) -1 ".repeat(500_000));
+            c.extend_from_slice(b"] TJ ET");
+            doc(c, true, "3 0 R".into(), 1)
+        }
+        // a page tree that lists the same page 200 000 times and claims two billion pages
+        "wide_kids" => doc(b"0 0 m".to_vec(), false, "3 0 R ".repeat(200_000), 2_000_000_000),
+        // a cross-reference stream of two million (free) entries, 10 MB of zeros behind 10 KB
+        "xref_entries" => {
+            let mut b = b"%PDF-1.7\n1 0 obj\n<</Type/Catalog/Pages 2 0 R>>\nendobj\n2 0 obj\n<</Type/Pages/Kids[]/Count 0>>\nendobj\n".to_vec();
+            let at = b.len();
+            let data = zl(&vec![0u8; 5 * 2_000_000]);
+            b.extend_from_slice(format!("3 0 obj\n<</Type/XRef/Size 2000000/W[1 3 1]/Root 1 0 R/Filter/FlateDecode/Length {}>>\nstream\n", data.len()).as_bytes());
+            b.extend_from_slice(&data);
+            b.extend_from_slice(format!("\nendstream\nendobj\nstartxref\n{at}\n%%EOF\n").as_bytes());
+            b
+        }
+        // an object stream that announces a hundred million members
+        "objstm_n" => {
+            let objects = vec![
+                json!({"n": 1, "g": 0, "value": raw("<</Type/Catalog/Pages 2 0 R>>".into())}),
+                json!({"n": 2, "g": 0, "value": raw("<</Type/Pages/Kids[3 0 R]/Count 1>>".into())}),
+                json!({"n": 3, "g": 0, "value": page(4)}),
+                json!({"n": 4, "g": 0, "dict": {"d": []}, "data": b"0 0 m".to_vec(), "filter": null}),
+                font.clone(),
+                json!({"n": 6, "g": 0, "dict": {"d": [["Type", {"n": "ObjStm"}], ["N", 100000000], ["First", 10]]}, "data": b"7 0 8 2   1 2".to_vec(), "filter": null}),
+            ];
+            crate::synth::build(&json!({"version": "1.7", "revisions": [{"objects": objects, "xref": "table", "trailer": [["Root", {"ref": [1, 0]}]]}]})).bytes
+        }
+        _ => b"%PDF-1.7\n".to_vec(),
+    }
 }
 
 // ---------------------------------------------------------------------------------------------------------------
